@@ -1519,7 +1519,14 @@ def _encode_host(host: str, validate_host: bool) -> str:
             ) from None
         return host
 
-    return _idna_encode(host)
+    encoded_host = _idna_encode(host)
+    if validate_host and (invalid := NOT_REG_NAME.search(encoded_host)):
+        # The IDNA 2003 fallback applies NFKC which may produce delimiters.
+        raise ValueError(
+            f"Host {host!r} cannot contain {invalid.group()!r} "
+            f"(at position {invalid.start()}) after IDNA encoding"
+        )
+    return encoded_host
 
 
 @rewrite_module
